@@ -43,12 +43,13 @@ func LoadKnown(path string) ([]KnownFinding, error) {
 		head, text, _ := strings.Cut(rest, "::")
 		var k KnownFinding
 		k.Text = strings.TrimSpace(text)
+		if i := strings.Index(head, "sig="); i >= 0 {
+			k.Sig = strings.TrimSpace(head[i+4:])
+			head = head[:i]
+		}
 		for _, f := range strings.Fields(head) {
 			if v, ok := strings.CutPrefix(f, "property="); ok {
 				k.Property = v
-			}
-			if v, ok := strings.CutPrefix(f, "sig="); ok {
-				k.Sig = v
 			}
 		}
 		if k.Property != "" && k.Sig != "" {
